@@ -812,7 +812,7 @@ def extra(ctx):
     CORPUS["C18-debug-evaluate-stack-overflow"] = {
         "what": "debug.evaluate with a long / deeply nested expression must be answered (the process must not abort)",
         "expect": ["debug-evaluate-deep:id=6_handled"] + [f"debug-evaluate-deep-{n}:id=6_handled" for n in
-                   ("parens", "nots", "chain-long", "fields", "depth-65")],
+                   ("parens", "nots", "chain-long", "fields", "depth-65")] + ["debug-evaluate-family:all-handled"],
     }
     CORPUS["C18-config-duration-overflow"] = {
         "what": "config.set of a millisecond value above i64::MAX / 1e6 must be answered (the connection thread must not panic)",
